@@ -314,7 +314,8 @@ def run(rep, tier, seed, keep=False):
                  'def(f, $c) -> f().secret', '$c.unpack()', '[$c].unpack(a) -> $a.secret', "regex('a').matches($c)", "'a'.join([$c])", '[$c].join(",")', "'a' + $c",
                  "$c.toUpper()", "hex($c)", '$c mod 2', 'range($c)', 'random($c)' if False else 'abs($c)', 'datetime($c)', 'timespan(days => $c)', '$c.__class__',
                  '$c.__dict__', "$c['__class__']", '$c.__getattribute__(secret)', '#operator_.($c, secret)' if False else '$c.reveal', "[$c].select($.reveal())",
-                 "[$c].where($.secret = 1)", "[$c].all($.secret)", "{a => $c}.values().select($.secret)", "[$c].aggregate($1.secret)", "[$c, 1].aggregate($1.secret)"]
+                 "[$c].where($.secret = 1)", "call('#call', [$c], {})", "call('#call', [$c, 1], {})", "call('#call', [$c], {a => 1})",
+                 "call('lambda', [$c], {})", "call('#operator_.', [$c, secret], {})", "call('#indexer', [$c, secret], {})", "call('#method_call', [$c, reveal], {})" if False else "call(call, ['#call', [$c], {}], {})", "[$c].all($.secret)", "{a => $c}.values().select($.secret)", "[$c].aggregate($1.secret)", "[$c, 1].aggregate($1.secret)"]
         for t in forms:
             run_expr(t, {'c': canary}, 'expr', 'as $c')
         # with delegates enabled calling a value from the data is the documented grant of that mode: not part of P1
